@@ -46,8 +46,9 @@ Fixpoint write_at (l : list N) (pos : nat) (v : list N) : list N :=
   end.
 
 (* [block] is the Go slice; [extra] are the bytes that follow it inside its capacity
-   (in a frame: message length, message, auth, appendix, margin).  A reslice that stays within
-   the capacity succeeds in Go and writes into [extra]; beyond the capacity it panics. *)
+   (in a frame: message length, message, auth, appendix, margin).  The return label must fit
+   into the block (ErrBufTooSmall otherwise): nothing is ever written into [extra], which is
+   returned unchanged.  (The pinned tree resliced into [extra]: Regression.rotate_pinned.) *)
 Definition rotate (block extra : list N) (ret : N) : res (N * list N * list N) :=
   let '(next, n) := uvarint block in
   if (n =? 0)%Z then Err 1                       (* ErrBufTooSmall *)
@@ -57,12 +58,12 @@ Definition rotate (block extra : list N) (ret : N) : res (N * list N * list N) :
     let b1 := skipn k block ++ repeat 0 k in
     let start := find_slot (next =? 0) b1 in
     let lab := rev (enc ret) in
-    if Nat.leb (start + length lab) (length block + length extra) then
+    if Nat.leb (start + length lab) (length block) then
       if (0 <? ret) && existsb (fun b => b =? 0) lab then Panic    (* panic(returnLabel) *)
       else
         let all := write_at (b1 ++ extra) start lab in
         Ok (next mod 65536, firstn (length block) all, skipn (length block) all)
-    else Panic.
+    else Err 3.                                   (* ErrBufTooSmall: no room for the return label *)
 
 (* ---------- TransformToReturnBlock ---------- *)
 Fixpoint drop_zeros (l : list N) : list N :=
